@@ -23,7 +23,7 @@ BUDGET = {"quick": 12000, "thorough": 400000}
 
 STATIC = {
     "text": ["foo", "bar123", "https://my-site.com/x?y=1", "foo bar", "a.b", "N/A", "q_1"], "integer": ["5", "-3", "0"],
-    "decimal": ["1.5", "-0.25"], "date": ["2022-03-14", "1999-12-31"], "time": ["01:02:55", "01:02:55.000-07:00"],
+    "decimal": ["1.5", "-0.25", "-.5", ".75", "-.25"], "date": ["2022-03-14", "1999-12-31"], "time": ["01:02:55", "01:02:55.000-07:00"],
     "dateTime": ["2022-03-14T01:02:55Z", "2022-03-14T01:02:55+10:00", "2022-03-14T01:02:55.000-08:00"],
     "geopoint": ["32.7 -117.1 14 5.01", "-1.5 36.8 0 0"], "geotrace": ["1 -2 0 0;3 -4 0 0"], "note": ["n"], "select_one": ["c1"],
     "select_multiple": ["c1 c2", "c1"], "image": ["a.png"], "barcode": ["b77"], "range": ["3"], "hidden": ["hv"], "acknowledge": ["OK"],
@@ -65,6 +65,24 @@ def _cases(draw):
             del n["c"]["calculation"]
             if cls != "dyn":
                 n["c"]["calculation"] = "1 + 1"
+    # names that merely begin with a repeat's name (a string-prefix test on paths would take them to be inside it)
+    def add_prefix_siblings(nodes):
+        for i, n in enumerate(list(nodes)):
+            if n["k"] in ("g", "r"):
+                add_prefix_siblings(n["ch"])
+            if n["k"] == "r" and g.p("_", 0.3):
+                rn = n["c"]["name"]
+                sib = {"k": "q", "c": {"type": "text", "name": rn + g.pick(["_info", "s", "2", "_count_x"]), "label": "sib",
+                                        "default": g.pick(["now()", "concat('a', 'b')", "1 + 1"])}}
+                if g.p("_", 0.4):
+                    sib = {"k": "g", "c": {"name": rn + g.pick(["_grp", "x"]), "label": "SG"}, "ch": [
+                        {"k": "q", "c": {"type": "text", "name": g.name(), "label": "in", "default": "uuid()"}}]}
+                nodes.insert(nodes.index(n) + (1 if g.p("_", 0.6) else 0), sib)
+    add_prefix_siblings(form["nodes"])
+    # triggered calculations whose whole text is a boolean alias
+    for n, _ in model.walk(form["nodes"]):
+        if n["k"] == "q" and "trigger" in n["c"] and "calculation" in n["c"] and g.p("_", 0.2):
+            n["c"]["calculation"] = g.pick(["yes", "TRUE", "no", "false", "True"])
     return {"form": form}
 
 
